@@ -152,12 +152,47 @@ def _aux_orbit(f, klen, word_args, ex, ps):
     return ex0, out
 
 
+def _congruences(f, ps):
+    """loop-carried integers that start at a linear form E of the parameters and move by multiples of g > 1 on every back edge:
+    {("hd", id): (E, g)}.  (A remaining length counted down by 4 keeps the message length's residue modulo 4.)"""
+    from math import gcd
+    out = {}
+    heads = sorted({p.end[1] for p in ps if p.end[0] in ("loop-entry", "backedge")})
+    for h in heads:
+        _ptrs, ints = hd_syms(f, h)
+        for X in ints:
+            ent = [p for p in ps if p.end[0] == "loop-entry" and p.end[1] == h]
+            back = [p for p in ps if p.end[0] == "backedge" and p.end[1] == h]
+            if not ent or not back:
+                continue
+            inits = {repr(p.env.get(("init", X.id))) for p in ent}
+            i0 = ent[0].env.get(("init", X.id))
+            if len(inits) != 1 or i0 is None or is_word(i0) or i0.const() is not None:
+                continue
+            g = 0
+            ok = True
+            for p in back:
+                b_ = p.env.get(("back", X.id))
+                d_ = b_.add(Lf.s(("hd", X.id)), -1).const() if (b_ is not None and not is_word(b_)) else None
+                if d_ is None or d_ == 0:
+                    ok = False
+                    break
+                g = gcd(g, abs(d_))
+            if ok and g > 1:
+                out[("hd", X.id)] = (i0, g)
+    return out
+
+
 def run_paths(f, klen, word_args=()):
     ex = irx.Exec(f, mode.Handler(klen), mode.havoc_state(klen // 32), word_args=word_args, auto=True, unrotate=True, split_max=32)
     ps = ex.run()
+    cg = _congruences(f, ps)
+    if cg:
+        ex = irx.Exec(f, mode.Handler(klen), mode.havoc_state(klen // 32), word_args=word_args, auto=True, unrotate=True, split_max=32, congr=cg)
+        ps = ex.run()
     eq = _index_exit_value(f, ps)
     if eq:
-        ex = irx.Exec(f, mode.Handler(klen), mode.havoc_state(klen // 32), word_args=word_args, auto=True, exit_eq=eq, unrotate=True, split_max=32)
+        ex = irx.Exec(f, mode.Handler(klen), mode.havoc_state(klen // 32), word_args=word_args, auto=True, exit_eq=eq, unrotate=True, split_max=32, congr=cg)
         ps = ex.run()
     else:
         ao = _aux_orbit(f, klen, word_args, ex, ps)
